@@ -32,7 +32,7 @@ REAL_TIME = time.time
 ID = "C16"
 LEVEL = "exploration"
 ENGINE = "simkit/proxy-world"
-QUICK_RUNS = 5000
+QUICK_RUNS = 12000
 QUICK_BUDGET_S = 150
 THOROUGH_BUDGET_S = 900
 CHUNK = 50
@@ -63,7 +63,9 @@ ASSUMPTIONS = ["an SNI value counts as a DNS name if, after IDNA to-ASCII, it ha
                "without SNI the client verifies the address it connected to (the proxy's listen address; in transparent "
                "mode the original destination)",
                "the second verifier is consulted only for subjects it accepts as names (it refuses e.g. trailing dots)",
-               "IDNA: the client stack and the oracle use Python's IDNA 2003 codec; deviation characters are not generated"]
+               "IDNA: the client stack and the oracle use Python's IDNA 2003 codec; deviation characters are not generated",
+               "the first TCP segment of a ClientHello is at least 3 bytes long (documented assumption of "
+               "net.tls.starts_like_tls_record)"]
 EXPECTED_PROBES = ["judged", "verified_ok", "form_simple", "form_no_sni", "form_ipv4", "form_ipv6", "form_idn_ulabel",
                    "form_idn_alabel", "form_label63", "form_name253", "form_label64", "form_trailing_dot",
                    "form_wildcard_literal", "outer_judged", "custom_ca", "upstream_names_copied", "upstream_org_copied",
